@@ -525,6 +525,50 @@ def confirm_violation(binary, path, known, times=3, need=None):
     return fails >= need, last
 
 
+def rerun_shard_fails(binary, pid, seed, shard, tcfg, known, kind, times=2):
+    """Re-runs a whole shard (deterministic: same seed, same parameters) and tells whether it
+    fails again with the same kind of violation, `times` times out of `times`."""
+    for k in range(times):
+        out = os.path.join(BUILD_ROOT, "rerun-%s-%d-%d.json" % (pid, os.getpid(), k))
+        r = run_shard(binary, pid, seed, shard, tcfg, os.path.dirname(out), known)
+        try:
+            with open(r["out"]) as f:
+                v = json.load(f).get("violation")
+        except Exception:
+            v = None
+        if not v or v.get("kind") != kind:
+            return False
+    return True
+
+
+def replay_shard(pid, path, known):
+    with open(path) as f:
+        d = json.load(f)
+    binary = build(pid, d.get("variant"))
+    out = os.path.join(BUILD_ROOT, "replay-shard-%d.json" % os.getpid())
+    cmd = [binary, "--rc", "--seed", str(d["seed"]), "--n", str(d["n"]), "--scale", str(d["scale"]), "--max-size", str(d["max_size"]),
+           "--size-arg", str(d["arg"]), "--case-timeout", "30", "--out", out]
+    if known:
+        cmd += ["--known", ",".join(known)]
+    r = subprocess.run(cmd, stdout=subprocess.PIPE, stderr=subprocess.PIPE, text=True, errors="replace", env=env_for_run())
+    v = None
+    try:
+        with open(out) as f:
+            v = json.load(f).get("violation")
+        os.remove(out)
+    except Exception:
+        pass
+    if v:
+        print("SHARD-RERUN seed=%s: violation kind=%s detail=%s" % (d["seed"], v["kind"], v["detail"][:600]))
+        print("CASE " + v["desc"][:1200])
+        return 1
+    if is_crash(r.returncode):
+        sys.stderr.write(r.stderr[-4000:])
+        return 1
+    print("SHARD-RERUN seed=%s: %s cases, no violation" % (d["seed"], d["n"]))
+    return 0
+
+
 def save_replay(pid, data, tag, arg=None):
     d = os.path.join(VERIF, "replays")
     os.makedirs(d, exist_ok=True)
@@ -619,7 +663,7 @@ def check(pid, tier):
         # enumerated order constraints first, the most stable in-process failures first
         cands = sorted(cands, key=lambda v: (0 if v.get("shard", 0) >= 1000 else 1, 0 if "[failed 3 of 3" in v.get("detail", "") else 1))
     confirmed = 0
-    for v in cands[:(16 if scheduled else 3)]:
+    for v in cands[:16]:
         if confirmed >= 3:
             break
         data = bytes.fromhex(v["bytes_hex"])
@@ -634,6 +678,18 @@ def check(pid, tier):
         if ok:
             confirmed += 1
             violations.append((p, "%s: %s | case: %s" % (v["kind"], v["detail"][:400], v["desc"][:600])))
+        elif not scheduled and v.get("shard", 1000) < 1000 and rerun_shard_fails(v["binary"], pid, seed, v["shard"], tcfg, known, v["kind"]):
+            # The input passes on its own but the same generated SEQUENCE of cases fails again at
+            # the same point: the failure needs what earlier cases of the process left behind
+            # (state shared between objects, e.g. a function-local static).  The reproducible unit
+            # is the shard; the replay file describes how to re-run it.
+            confirmed += 1
+            d = {"kind": "shard-rerun", "property": pid, "variant": variants[0], "seed": shard_seed(seed, v["shard"], pid), "n": tcfg["n"], "scale": tcfg["scale"],
+                 "max_size": tcfg.get("max_size", 100), "arg": tcfg.get("arg", 0), "failing_case_alone": os.path.basename(p)}
+            pj = os.path.join(VERIF, "replays", "%s-shard-%d-%d.json" % (pid, seed, v["shard"]))
+            with open(pj, "w") as f:
+                json.dump(d, f, indent=1)
+            violations.append((pj, "%s: %s | fails only after the cases that precede it in the same process - the single case %s passes in a fresh process, the generated sequence fails every time (state shared between objects of one process) | case: %s" % (v["kind"], v["detail"][:400], os.path.basename(p), v["desc"][:500])))
         else:
             notes.append("a generated failure did not reproduce %s in fresh processes (not reported): %s (%s)" % ("2/6" if scheduled else "3/3", p, v["kind"]))
     # dead shards (sanitizer report, assertion, watchdog): shrink out of process, confirm
@@ -755,8 +811,13 @@ def main():
         return 0
     if cmd == "replay":
         pid, path = sys.argv[2], sys.argv[3]
-        binary = build(pid)
         known = [k["matcher"] for k in load_known() if k.get("property") == pid and k.get("status") == "known"]
+        if path.endswith(".json"):
+            rc = replay_shard(pid, path, known)
+            if rc:
+                print("VIOLATION property=%s replay=%s" % (pid, path))
+            return rc
+        binary = build(pid)
         rc, so, se = replay_once(binary, path, known)
         sys.stdout.write(so)
         sys.stderr.write(se[-8000:])
